@@ -6,10 +6,13 @@ import Peppi.Json
 import Peppi.Arrow
 import Peppi.Rollbacks
 import Peppi.Version
+import Peppi.ShiftJis
+import Peppi.Lemmas.C09P
 open Peppi
 
 def hexVal (c : Char) : Nat := if c.isDigit then c.toNat - 48 else if 'a' ≤ c ∧ c ≤ 'f' then c.toNat - 87 else 0
 def parseHex (s : String) : Bytes :=
+  if s == "-" then [] else
   let rec go : List Char → Bytes → Bytes
     | a :: b :: t, acc => go t (UInt8.ofNat (hexVal a * 16 + hexVal b) :: acc)
     | _, acc => acc.reverse
@@ -34,12 +37,47 @@ mutual
     | .cons k v rest => hexOf k ++ "=" ++ treeDump v ++ ";" ++ kvsDump rest
 end
 
+/-- before 3.7 the Frame End struct has no column at all, so the real `End` cannot tell how many rows it has:
+    canonically it has one (empty) row per frame id -/
+def endRows (g : Game) : Option SCols :=
+  g.frames.fend.map fun c => if g.start.version.gte 3 7 then c else List.replicate g.frames.id.length (some [])
+
 def summary (g : Game) : String :=
   let f := g.frames
   let ports := f.ports.map fun p =>
     s!"P{p.port}:{p.leader.pre.length}/{p.leader.post.length}/{showValid p.leader.valid}/{colsSum p.leader.pre}/{colsSum p.leader.post}" ++
     (match p.follower with | none => "" | some d => s!"+F:{d.pre.length}/{d.post.length}/{showValid d.valid}/{colsSum d.pre}/{colsSum d.post}")
-  s!"ok v={g.start.version.major}.{g.start.version.minor}.{g.start.version.patch} ids={f.id} ports={ports} start={f.start.map (·.length)}/{f.start.map colsSum} end={f.fend.map (·.length)}/{f.fend.map colsSum} off={f.itemOff} item={f.item.map (·.length)}/{f.item.map colsSum} gecko={g.gecko.map fun c => (c.actualSize, c.bytes.length)} dbl={g.doubleGameEnd} end?={g.fend.isSome} meta?={g.metadata.isSome} hashed={g.hashedLen}"
+  s!"ok v={g.start.version.major}.{g.start.version.minor}.{g.start.version.patch} ids={f.id} ports={ports} start={f.start.map (·.length)}/{f.start.map colsSum} end={(endRows g).map (·.length)}/{(endRows g).map colsSum} off={f.itemOff} item={f.item.map (·.length)}/{f.item.map colsSum} gecko={g.gecko.map fun c => (c.actualSize, c.bytes.length)} dbl={g.doubleGameEnd} end?={g.fend.isSome} meta?={g.metadata.isSome} hashed={g.hashedLen}"
+
+/-- the incremental API driven like the harness drives the real one: header, start, one event per call
+    while `bytes_read < raw_len`, then what `read` does after its loop -/
+partial def incLoop (rawLen : Nat) (ps : ParseState) (bs : Bytes) (acc : List String) : Res (List String × ParseState × Bytes) :=
+  if ps.bytesRead < rawLen then
+    match parseEvent ps bs with
+    | .ok ((code, ps'), rest) =>
+      let acc := acc ++ [s!"{ps'.st.frames.id.length}:{ps'.bytesRead}"]
+      if code = EV_GAME_END then .ok (acc, ps', rest) else incLoop rawLen ps' rest acc
+    | .err e => .err e
+    | .panic p => .panic p
+  else .ok (acc, ps, bs)
+
+def incRun (input : Bytes) : Res (List String) :=
+  match parseHeader input with
+  | .ok (rawLen, rest) =>
+    (match parseStart T rest with
+     | .ok (ps, rest) =>
+       (match incLoop rawLen ps rest [s!"{ps.st.frames.id.length}:{ps.bytesRead}"] with
+        | .ok (tr, ps', rest') =>
+          (match readTail T rawLen ps' rest' with
+           | .ok _ => .ok tr
+           | .err e => .err e
+           | .panic p => .panic p)
+        | .err e => .err e
+        | .panic p => .panic p)
+     | .err e => .err e
+     | .panic p => .panic p)
+  | .err e => .err e
+  | .panic p => .panic p
 
 partial def loop (h : IO.FS.Stream) : IO Unit := do
   let line ← h.getLine
@@ -57,9 +95,9 @@ partial def loop (h : IO.FS.Stream) : IO Unit := do
     | .ok b => IO.println ("ok " ++ String.join (b.map fun x => String.ofList (Nat.toDigits 16 (x.toNat + 256)).tail))
     | .err e => IO.println s!"err {e}"
     | .panic p => IO.println s!"panic {p}"
-  | ["pwrite", sj, hex] =>
+  | ["pwrite", sj, hash, hex] =>
     match readSlp { T with sjisOk := fun _ => sj == "1" } {} (parseHex hex) with
-    | .ok g => (match peppiEntries g none with
+    | .ok g => (match peppiEntries g (if hash == "-" then none else some hash) with
       | .ok es => IO.println ("ok " ++ "|".intercalate (es.map fun e => e.1 ++ "=" ++ e.2))
       | .err e => IO.println s!"err {e}"
       | .panic p => IO.println s!"panic {p}")
@@ -105,7 +143,7 @@ partial def loop (h : IO.FS.Stream) : IO Unit := do
     | _ => IO.println "err"
   | ["vparse"] => IO.println "err"
   | ["roll", mode, ids] =>
-    let l : List Int := if ids.isEmpty then [] else (ids.splitOn ",").map String.toInt!
+    let l : List Int := if ids.isEmpty || ids == "-" then [] else (ids.splitOn ",").map String.toInt!
     match rollbacks (if mode == "first" then .exceptFirst else .exceptLast) l with
     | .ok m => IO.println ("ok " ++ String.ofList (m.map fun b => if b then '1' else '0'))
     | .err e => IO.println s!"err {e}"
@@ -114,7 +152,32 @@ partial def loop (h : IO.FS.Stream) : IO Unit := do
     match rollbacks (if mode == "first" then .exceptFirst else .exceptLast) [] with
     | .ok m => IO.println ("ok " ++ String.ofList (m.map fun b => if b then '1' else '0'))
     | _ => IO.println "err"
-  | _ => IO.println "bad-op"
+  | ["prefixes", skip, hex] =>
+    let b := parseHex hex
+    let sk := skip == "1"
+    let bad := (List.range b.length).filter fun n =>
+      match readSlp T { skipFrames := sk, computeHash := n % 2 == 0 } (b.take n) with
+      | .err _ => false
+      | _ => true
+    let full := (readSlp T { skipFrames := sk } b).isOk
+    if bad.isEmpty then IO.println s!"allerr {b.length} full={full}" else IO.println s!"bad {bad.take 5} full={full}"
+  | ["inc", hex] =>
+    match incRun (parseHex hex) with
+    | .ok tr => IO.println ("ok " ++ ",".intercalate tr)
+    | .err e => IO.println s!"err {e}"
+    | .panic p => IO.println s!"panic {p}"
+  | ["norm", cps] =>
+    match toNormalized ((cps.splitOn ",").map String.toNat!) with
+    | .ok l => IO.println ("ok " ++ ",".intercalate (l.map toString))
+    | .err e => IO.println s!"err {e}"
+    | .panic p => IO.println s!"panic {p}"
+  | ["pvgate", a, b, c] =>
+    match assertCurrentVersion (a.toNat!, b.toNat!, c.toNat!) with
+    | .ok _ => IO.println "ok"
+    | _ => IO.println "err"
+  | ["consts"] =>
+    IO.println s!"max={MAX_SUPPORTED_VERSION.major}.{MAX_SUPPORTED_VERSION.minor}.{MAX_SUPPORTED_VERSION.patch} first_index={FIRST_INDEX} min_peppi={PEPPI_MIN_VERSION.1}.{PEPPI_MIN_VERSION.2.1}.{PEPPI_MIN_VERSION.2.2}"
+  | _ => IO.println "n/a"
   loop h
 
 def main : IO Unit := do loop (← IO.getStdin)
